@@ -30,6 +30,8 @@ theorem good_init (v0 : Nat) : Good v0 (init v0) := by
   unfold enter; split <;> rfl
 @[simp] theorem enter_owner (s : State) (r : Req) : (enter s r).owner = s.owner := by
   unfold enter; split <;> rfl
+@[simp] theorem enter_content (s : State) (r : Req) : (enter s r).content = s.content := by
+  unfold enter; split <;> rfl
 @[simp] theorem enter_reconnects (s : State) (r : Req) : (enter s r).reconnects = s.reconnects := by
   unfold enter; split <;> rfl
 @[simp] theorem enter_registered (s : State) (r : Req) : (enter s r).registered = s.registered := by
@@ -54,6 +56,14 @@ theorem good_init (v0 : Nat) : Good v0 (init v0) := by
     · rw [ih]
     · simp
 @[simp] theorem settle_owner (s : State) (ws : List Req) : (settle s ws).owner = s.owner := by
+  induction ws generalizing s with
+  | nil => rfl
+  | cons w ws ih =>
+    unfold settle
+    split
+    · rw [ih]
+    · simp
+@[simp] theorem settle_content (s : State) (ws : List Req) : (settle s ws).content = s.content := by
   induction ws generalizing s with
   | nil => rfl
   | cons w ws ih =>
